@@ -25,6 +25,7 @@ package main
 //   crashall D M         enumerate all crash points, depth D (1|2), every M-th second-level fork
 
 import (
+	"errors"
 	"fmt"
 	"os"
 	"path/filepath"
@@ -182,7 +183,7 @@ func startEnv(e *WEnv, runTasks bool) error {
 			}
 			_, _, queued := e.wm.VerifQueueLens()
 			if fdb.waiters() == 0 || queued+1 != nBusy {
-				requeueErr = fmt.Errorf("%d wallets with unfinished work, %d tasks queued again, worker waiting: %d", nBusy, queued, fdb.waiters())
+				requeueErr = fmt.Errorf("%w: %d wallets with unfinished work, %d tasks queued again, worker waiting: %d", errRequeue, nBusy, queued, fdb.waiters())
 			}
 		}
 		fdb.releaseGate()
@@ -217,6 +218,8 @@ func settle(e *WEnv) {
 		}
 	}
 }
+
+var errRequeue = errors.New("unfinished work not queued again")
 
 func bootEnv(e *WEnv) error {
 	if err := e.Restart(); err != nil {
@@ -591,7 +594,12 @@ func (x *crashExec) replay(f *forkRec, level, depth, mod int) string {
 		if verifDebug {
 			fmt.Fprintln(os.Stderr, "  [boot error]", err)
 		}
-		return fmt.Sprintf("k=%d op=%d boot-failed", f.k, f.op)
+		if errors.Is(err, errRequeue) {
+			return fmt.Sprintf("k=%d op=%d boot-failed:requeue", f.k, f.op)
+		}
+		// Start itself failed (its catch-up hit an error). If the follower of the uninterrupted run
+		// is healthy, the observations below differ (the replay stays behind); if it is wedged on the
+		// same block (e.g. by C08's open defect D11 after a removal) there is nothing to compare.
 	}
 	if rec != nil {
 		rec.inBoot = false
